@@ -22,7 +22,11 @@ import (
 	sdkmath "cosmossdk.io/math"
 	authtypes "github.com/cosmos/cosmos-sdk/x/auth/types"
 	consensustypes "github.com/cosmos/cosmos-sdk/x/consensus/types"
+	bitcoinmodule "github.com/goatnetwork/goat/x/bitcoin/module"
+	goatmodule "github.com/goatnetwork/goat/x/goat/module"
 	goatmod "github.com/goatnetwork/goat/x/goat/types"
+	lockingmodule "github.com/goatnetwork/goat/x/locking/module"
+	relayermodule "github.com/goatnetwork/goat/x/relayer/module"
 	lockingtypes "github.com/goatnetwork/goat/x/locking/types"
 	relayertypes "github.com/goatnetwork/goat/x/relayer/types"
 	"verif/harness/internal/appsim"
@@ -57,7 +61,7 @@ type bufLine struct {
 }
 
 func init() {
-	for _, p := range []string{"app", "app-guard", "app-engine", "app-proposal", "app-det", "app-malformed"} {
+	for _, p := range []string{"app", "app-guard", "app-engine", "app-proposal", "app-det", "app-malformed", "app-export", "app-export-tax"} {
 		p := p
 		streams[p] = func(seed uint64) Stream { return &appStream{worldStream: newWorldStream("goat-app-1"), profile: p} }
 	}
@@ -127,7 +131,7 @@ func (s *appStream) boot(r *tr.Rng) {
 	bk := &keys.BtcKey{Kind: "0", Pub: pub.SerializeCompressed(), Priv: priv}
 	s.rel = &relayerStream{worldStream: s.worldStream, btcKey: bk}
 	s.rel.k = 1
-	s.btc = &bitcoinStream{worldStream: s.worldStream, net: &chaincfg.RegressionNetParams, blocks: map[uint64]*btcBlock{}, wds: map[uint64]*wd{}, nextWid: 1,
+	s.btc = &bitcoinStream{worldStream: s.worldStream, net: &chaincfg.RegressionNetParams, blocks: map[uint64]*btcBlock{}, wds: map[uint64]*wd{}, nextWid: 1, genesisValidTax: s.profile == "app-export",
 		keys: []*keys.BtcKey{bk}, unreg: keys.NewBtcKey(r, "0")}
 	s.btc.k = 1
 	for i := 0; i < 4; i++ {
@@ -135,7 +139,7 @@ func (s *appStream) boot(r *tr.Rng) {
 	}
 	s.btc.keyOracles(bk)
 	s.btc.keyOracles(s.btc.unreg)
-	s.lck = &lockingStream{worldStream: s.worldStream, profile: "mixed"}
+	s.lck = &lockingStream{worldStream: s.worldStream, profile: "mixed", mapOrderBias: s.profile == "app-det"}
 	s.lck.k = 1
 	lp, _ := sim.App.LockingKeeper.Params.Get(s.w.Ctx)
 	s.lck.params.unlock, s.lck.params.exit, s.lck.params.jail = int64(lp.UnlockDuration), int64(lp.ExitingDuration), int64(lp.DowntimeJailDuration)
@@ -144,6 +148,18 @@ func (s *appStream) boot(r *tr.Rng) {
 		s.lck.tokens = append(s.lck.tokens, tokenAddrOf(d))
 		return false, nil
 	})
+	// the token the genesis validators hold goes first: the generators keep its weight positive (a zero
+	// weight for the only staked token empties the validator set: known finding F10)
+	if gv, err := sim.App.LockingKeeper.Validators.Get(s.w.Ctx, sdk.ConsAddress(sim.Validators[0].ConsAddr)); err == nil && len(gv.Locking) > 0 {
+		held := tokenAddrOf(gv.Locking[0].Denom)
+		toks := [][]byte{held}
+		for _, t := range s.lck.tokens {
+			if string(t) != string(held) {
+				toks = append(toks, t)
+			}
+		}
+		s.lck.tokens = toks
+	}
 	for _, v := range sim.Validators {
 		pk, _ := btcec.ParsePubKey(v.PubKey)
 		lv := &lval{addr: v.ConsAddr, comp: v.PubKey, pub64: pk.SerializeUncompressed()[1:]}
@@ -576,8 +592,72 @@ func (s *appStream) genBlock(r *tr.Rng) {
 		panic(err)
 	}
 	eb, _ := sim.DecodeEthBlockTx(txs[0])
-	if s.profile == "app-proposal" || r.Chance(10) {
-		s.genProcess(r, proposerIdx, txs[0], ptxs, eb.Payload)
+	ethCls := ""
+	malformed := s.profile == "app-malformed"
+	if malformed || r.Chance(4) {
+		// a defective execution-block message in the finalised block (C06: it consumes nothing; C19: it
+		// is an error, never a crash)
+		m := clonePayload(eb.Payload)
+		var mp *goatmod.ExecutionPayload = m
+		switch r.Intn(pick(malformed, 14, 30)) {
+		case 0:
+			ethCls, m.ExtraData = "/short-extra", m.ExtraData[:32]
+		case 1:
+			ethCls = "/count-byte+1"
+			m.ExtraData[0]++
+		case 2:
+			ethCls, m.Requests = "/garbage-requests", [][]byte{r.Bytes(1 + r.Intn(40))}
+		case 3:
+			ethCls, m.Requests = "/truncated-request", [][]byte{append([]byte{byte(1 + r.Intn(14))}, r.Bytes(r.Intn(50))...)}
+		case 4:
+			ethCls, m.BlobGasUsed = "/blob-gas", 7
+		case 5:
+			ethCls, m.BeaconRoot = "/wrong-beacon", flip(m.BeaconRoot)
+		case 6:
+			ethCls, mp = "/nil-payload", nil
+		case 7:
+			ethCls, m.ParentHash = "/wrong-parent", flip(m.ParentHash)
+		case 8:
+			if len(m.Transactions) > 0 {
+				ethCls, m.Transactions = "/systx-dropped", m.Transactions[1:]
+				m.ExtraData[0]--
+			}
+		case 9:
+			ethCls, m.FeeRecipient = "/wrong-fee-recipient", flip(m.FeeRecipient)
+		case 10:
+			ethCls, m.Requests = "/no-requests", nil
+		}
+		if ethCls != "" {
+			raw, err := sim.SignTx(sim.Validators[proposerIdx].Priv, []sdk.Msg{&goatmod.MsgNewEthBlock{Proposer: sim.Validators[proposerIdx].AddrStr, Payload: mp}},
+				appsim.TxOpts{GasLimit: 1e8, TimeoutHeight: uint64(height)})
+			if err == nil {
+				txs[0] = raw
+				eb.Payload = mp
+			} else {
+				ethCls = ""
+			}
+		}
+	}
+	var rawTxs []*pendingTx
+	if malformed {
+		for n := r.Intn(3); n > 0; n-- { // undecodable transactions inside the block
+			var raw []byte
+			cls := "rawtx/random-bytes"
+			if len(ptxs) > 0 && r.Bool() {
+				src := ptxs[r.Intn(len(ptxs))].raw
+				raw, cls = src[:len(src)/2], "rawtx/truncated"
+			} else {
+				raw = r.Bytes(1 + r.Intn(200))
+			}
+			rawTxs = append(rawTxs, &pendingTx{op: tr.NewOp(cls, "tx.raw", "len", len(raw)), raw: raw})
+		}
+		for _, p := range rawTxs {
+			txs = append(txs, p.raw)
+		}
+		ptxs = append(ptxs, rawTxs...)
+	}
+	if (s.profile == "app-proposal" || r.Chance(10)) && eb.Payload != nil && len(rawTxs) == 0 {
+		s.genProcess(r, proposerIdx, txs[0], ptxs, eb.Payload, ethCls == "")
 	}
 	// faults hit the two calls `Finalized` makes (DirectBuild does not consult faults)
 	if newStatus != "VALID" {
@@ -652,16 +732,26 @@ func (s *appStream) genBlock(r *tr.Rng) {
 	// the execution-block message
 	pl := eb.Payload
 	eo := tr.NewOp("ethblock", "tx.ethblock", "ante", "finalize", "signer", sdk.AccAddress(proposer).String(), "signers", 1, "memo", 0, "timeout", height, "height", height,
-		"sigok", "1", "seqok", "1", "time", s.now, "proposer", tr.Hex(proposer), "comet", tr.Hex(proposer), "haspayload", "1",
-		"parent", tr.Hex(pl.ParentHash), "feerecip", tr.Hex(pl.FeeRecipient), "number", pl.BlockNumber, "hash", tr.Hex(pl.BlockHash), "blob", pl.BlobGasUsed,
-		"beacon", tr.Hex(pl.BeaconRoot), "extra", tr.Hex(pl.ExtraData), "txs", world.SysTxListRaw(pl.Transactions), "headerhash", tr.Hex(sim.BlockHash(height)))
-	bridge, relayer, locking, derr := goattypes.DecodeRequests(pl.Requests)
-	if derr != nil {
-		eo.Add("reqdecode", "err")
+		"sigok", "1", "seqok", "1", "time", s.now, "proposer", tr.Hex(proposer), "comet", tr.Hex(proposer), "headerhash", tr.Hex(sim.BlockHash(height)))
+	var bridge goattypes.BridgeRequests
+	var relayer goattypes.RelayerRequests
+	var locking goattypes.LockingRequests
+	if pl == nil {
+		eo.Add("haspayload", "0")
+		pl = &goatmod.ExecutionPayload{}
 	} else {
-		eo.Add("reqdecode", "ok")
+		eo.Add("haspayload", "1").Add("parent", tr.Hex(pl.ParentHash)).Add("feerecip", tr.Hex(pl.FeeRecipient)).Add("number", pl.BlockNumber).
+			Add("hash", tr.Hex(pl.BlockHash)).Add("blob", pl.BlobGasUsed).Add("beacon", tr.Hex(pl.BeaconRoot)).Add("extra", tr.Hex(pl.ExtraData)).
+			Add("txs", world.SysTxListRaw(pl.Transactions))
+		var derr error
+		bridge, relayer, locking, derr = goattypes.DecodeRequests(pl.Requests)
+		if derr != nil {
+			eo.Add("reqdecode", "err")
+		} else {
+			eo.Add("reqdecode", "ok")
+		}
+		reqArgsOf(eo, bridge, relayer, locking)
 	}
-	reqArgsOf(eo, bridge, relayer, locking)
 	cls := "ethblock"
 	if len(script.Locking.Locks)+len(script.Locking.Unlocks)+len(script.Locking.Creates) > 0 {
 		cls += "+locking"
@@ -675,10 +765,14 @@ func (s *appStream) genBlock(r *tr.Rng) {
 	if len(pl.Transactions) > 0 {
 		cls += fmt.Sprintf("+systx")
 	}
-	eo.Cls = cls
+	eo.Cls = cls + ethCls
 	s.emit(eo, resOf(0))
 	for i, p := range ptxs {
-		s.emit(p.op, resOf(i+1))
+		res := resOf(i + 1)
+		if p.op.Kind == "tx.raw" && strings.HasPrefix(res, "panic") {
+			res = "err" + res[5:] // bytes that happen to decode: whatever they are, they must fail without effect
+		}
+		s.emit(p.op, res)
 	}
 	end := tr.NewOp("end/new="+newStatus+"/fcu="+fcuStatus, "a.end", "height", height, "time", s.now, "newstatus", newStatus, "fcustatus", fcuStatus)
 	if halt {
@@ -705,6 +799,9 @@ func (s *appStream) genBlock(r *tr.Rng) {
 	sim.Engine.ClearFaults()
 	if detOp != nil {
 		s.emit(detOp, "ok")
+	}
+	if !halt && ((strings.HasPrefix(s.profile, "app-export") && s.blocks%12 == 0) || (s.profile == "app" && s.blocks%97 == 0)) {
+		s.emit(s.exportImport(r), "ok")
 	}
 	if dump || halt {
 		s.emitDumps()
@@ -755,7 +852,7 @@ func flip(b []byte) []byte {
 
 // genProcess: ProcessProposal on the honest proposal (ante-valid transactions only, as the real
 // PrepareProposal selects them) and on single mutations of it.
-func (s *appStream) genProcess(r *tr.Rng, proposerIdx int, ethTx []byte, ptxs []*pendingTx, pl *goatmod.ExecutionPayload) {
+func (s *appStream) genProcess(r *tr.Rng, proposerIdx int, ethTx []byte, ptxs []*pendingTx, pl *goatmod.ExecutionPayload, baseHonest bool) {
 	sim := s.sim
 	s.processed = true
 	height := sim.Height + 1
@@ -780,7 +877,7 @@ func (s *appStream) genProcess(r *tr.Rng, proposerIdx int, ethTx []byte, ptxs []
 			time.Sleep(2 * time.Millisecond) // a rejection cancels the in-flight newPayload RPC: let it land
 		}
 		sim.Engine.ClearFaults()
-		honest := cls == "honest"
+		honest := cls == "honest" && baseHonest // a deliberately defective execution-block message is not an honest build
 		if pl != nil {
 			if _, _, l, derr := goattypes.DecodeRequests(pl.Requests); derr != nil || len(l.Gas) != 1 {
 				honest = false // the scripted execution layer misbehaved (fault class), not an honest build
@@ -1145,4 +1242,110 @@ func diffTokens(a, b string) string {
 		}
 	}
 	return "length"
+}
+
+
+// ---------------------------------------------------------------------------------- C18: export / import
+
+func canonDump(line string) string {
+	// the two boarding queues are rebuilt from the voter statuses in address order: compare them as sets
+	f := strings.Fields(line)
+	for i, tok := range f {
+		if strings.HasPrefix(tok, "on=") || strings.HasPrefix(tok, "off=") {
+			k := tok[:strings.IndexByte(tok, '=')+1]
+			xs := tr.SplitList(tok[len(k):])
+			sort.Strings(xs)
+			f[i] = k + tr.StrList(xs)
+		}
+	}
+	return strings.Join(f, " ")
+}
+
+func (s *appStream) exportImport(r *tr.Rng) (op *tr.Op) {
+	same, detail := "1", "-"
+	fail := func(d string) *tr.Op {
+		if len(d) > 300 {
+			d = d[:300]
+		}
+		d = strings.ReplaceAll(strings.ReplaceAll(d, " ", "_"), "=", ":")
+		d = strings.Map(func(c rune) rune {
+			if c < 0x21 || c > 0x7e {
+				return '?'
+			}
+			return c
+		}, d)
+		return tr.NewOp("export/same=0", "a.export", "height", s.sim.Height, "same", "0", "detail", d)
+	}
+	defer func() {
+		if e := recover(); e != nil {
+			op = fail(fmt.Sprintf("panic:%v", e))
+		}
+	}()
+	sim := s.sim
+	exp, err := sim.Export()
+	if err != nil {
+		return fail("export:" + err.Error())
+	}
+	before := s.dumpLines()
+	cfg := s.cfg
+	cfg.Home = ""
+	sim2, err := appsim.NewFromExport(cfg, exp, nil)
+	if err != nil {
+		return fail("import:" + err.Error())
+	}
+	defer sim2.Close()
+	// same state: every collection of the four modules
+	w2 := &world.World{ChainID: s.chain, Ctx: sim2.ReadCtx(), Rel: sim2.App.RelayerKeeper, Btc: sim2.App.BitcoinKeeper, Lock: sim2.App.LockingKeeper, Goat: sim2.App.GoatKeeper}
+	head, beacon, _ := sim2.EthHead()
+	after := []string{world.DumpRel(w2.Ctx, w2), world.DumpBtc(w2.Ctx, w2), world.DumpLock(w2.Ctx, w2),
+		fmt.Sprintf("goat head=%x|%d|%x beacon=%x", head.BlockHash, head.BlockNumber, head.ParentHash, beacon)}
+	for i, b := range before {
+		if canonDump(b.res) != canonDump(after[i]) {
+			return fail("state-differs:" + diffTokens(canonDump(b.res), canonDump(after[i])))
+		}
+	}
+	// a second export is identical to the first (module by module; the imported chain has not
+	// committed a block yet, so the application-level export cannot be used on it)
+	g1, g2 := moduleExports(sim), moduleExports(sim2)
+	for i := range g1 {
+		if g1[i] != g2[i] {
+			return fail(fmt.Sprintf("second-export-differs:module%d", i))
+		}
+	}
+	// the initial validator set handed to the consensus engine equals the exported active set
+	var want, got []string
+	for _, v := range exp.Validators {
+		want = append(want, fmt.Sprintf("%x|%d", v.PubKey.Bytes(), v.Power))
+	}
+	for _, v := range sim2.CurSet {
+		got = append(got, fmt.Sprintf("%x|%d", v.PubKey, v.Power))
+	}
+	sort.Strings(want)
+	sort.Strings(got)
+	if strings.Join(want, ",") != strings.Join(got, ",") {
+		return fail("initial-validator-set-differs:" + strings.Join(want, ",") + "/" + strings.Join(got, ","))
+	}
+	// the imported chain can go on: one empty block
+	if _, err := sim2.NextBlockFast(nil); err != nil {
+		return fail("imported-chain-halts:" + err.Error())
+	}
+	return tr.NewOp("export/same="+same, "a.export", "height", sim.Height, "same", same, "detail", detail)
+}
+
+
+func moduleExports(sim *appsim.Sim) []string {
+	ctx := sim.ReadCtx()
+	out := make([]string, 4)
+	mar := func(m interface{ Marshal() ([]byte, error) }) string {
+		b, err := m.Marshal()
+		if err != nil {
+			return "marshal-error"
+		}
+		return string(b)
+	}
+	out[0] = mar(relayermodule.ExportGenesis(ctx, sim.App.RelayerKeeper))
+	out[1] = mar(bitcoinmodule.ExportGenesis(ctx, sim.App.BitcoinKeeper))
+	out[2] = mar(lockingmodule.ExportGenesis(ctx, sim.App.LockingKeeper))
+	out[3] = mar(goatmodule.ExportGenesis(ctx, sim.App.GoatKeeper))
+	return out
 }
